@@ -88,6 +88,7 @@ func c05Items() []withItem {
 var c05Bodies = []string{
 	"any = x", "(any = x) maybe (any = y)", "('a' = x) or ('b' = y)", "at least 1 'a'", "(at least 1 'a') = x 'b'", "any",
 	"pcap maybe (any = y)", "pcap2 maybe pcap2", "at least 1 ('a' = x) named lp maybe (any = y)",
+	"(at least 1 digit) = x maybe ('a' = y)", "(digit = x) (maybe digit) = y",
 	"(maybe 'a') = x ('b' or '\\n') = y", "(any = y) maybe (y = x)", "at least 1 ((any = x) (any = y))", "'a' (at least 0 any fewest) = y 'b'",
 }
 
@@ -95,7 +96,7 @@ func init() {
 	register(&Check{
 		ID:    "C05",
 		Level: "exploration",
-		Rule: "every `with` list of length 1..k over 21 items (2 string literals, captures x y, the 8 built-ins, an undefined name, 8 transforms reading and ASSIGNING match / matchNumber / captures / locals and reading every built-in) x 12 bodies (two with the captures declared inside `set .. to pattern` definitions) with 0-2 captures whose values differ between matches x every text over {a,b,\\n} up to the length bound; " +
+		Rule: "every `with` list of length 1..k over 21 items (2 string literals, captures x y, the 8 built-ins, an undefined name, 8 transforms reading and ASSIGNING match / matchNumber / captures / locals and reading every built-in) x 14 bodies (two with the captures declared inside `set .. to pattern` definitions, two capturing digits) with 0-2 captures whose values differ between matches x every text over {a,b,\\n} up to the length bound and over {0,7} up to length 3; " +
 			"expected replacement = concatenation of the items computed from the match record itself, and the matches must equal those of `find all` with the same body; non-trivial = distinct (list,body,text) triples with at least 2 matches",
 		Assume: []string{"the four transforms are fixed; the general evaluator is C11's subject", "Run(string) reports filename 'text'"},
 		Budget: map[string]int{"quick": 120, "thorough": 1200},
@@ -106,6 +107,9 @@ func init() {
 func runC05(c *Ctx) {
 	items := c05Items()
 	txts := texts("ab\n", c.Pick(3, 4))
+	// captures that look like numbers (a transform handles a capture as text: leading zeros stay, `+` concatenates)
+	txts = append(txts, texts("07", 3)[1:]...)
+	txts = append(txts, "22a", "007", "a10", "9")
 	var lists [][]int
 	for i := range items {
 		lists = append(lists, []int{i})
